@@ -21,7 +21,9 @@ type JApi struct {
 func NewJapi(filepath string, oo ...core.Option) (JApi, *jerr.JApiError) {
 	f, err := readPanicFree(filepath)
 	if err != nil {
-		return JApi{}, jerr.NewJApiError(err.Error(), f, 0)
+		// There is no content to point into: the error is located at the
+		// beginning of the (unreadable) root file.
+		return JApi{}, jerr.NewJApiError(err.Error(), fs.NewFile(filepath, ""), 0)
 	}
 	return NewJApiFromFile(f, oo...)
 }
